@@ -95,14 +95,36 @@ structure HT (d : Nat) (α : Type) where
   h : Mat (d + 1)
   ends : Option (α × α)
 
-/-- the matrix of `pseudoinverse()`, class by class as resolved by the MRO -/
-def pinvH {d : Nat} (c : Cls) (H : Mat (d + 1)) : Option (Mat (d + 1)) :=
-  match c with
+/-- the classes of menpo that define a `pseudoinverse` method the family resolves to -/
+inductive Impl where
+  | homogeneous            -- `Homogeneous.pseudoinverse`: `self.__class__(np.linalg.inv(self.h_matrix))`
+  | homogFamilyAlignment   -- `HomogFamilyAlignment.pseudoinverse`: copy, `np.linalg.inv(h_matrix)`, ends exchanged
+  | translation | uniformScale | nonUniformScale | rotation      -- the closed forms
+  deriving DecidableEq, Repr
+
+/-- THE DISPATCH TABLE the model is assembled from: which class supplies `pseudoinverse` for each family class
+(method resolution order; `HomogFamilyAlignment` comes first in the MRO of every alignment).  Regenerated from the live
+classes on every run and compared with this table (`GenProps/C04.lean: dispatch_ok`). -/
+def implOf : Cls → Impl
+  | .homogeneous | .affine | .similarity => .homogeneous
+  | .rotation => .rotation
+  | .translation => .translation
+  | .uniformScale => .uniformScale
+  | .nonUniformScale => .nonUniformScale
+  | .alignmentAffine | .alignmentSimilarity | .alignmentRotation | .alignmentTranslation
+  | .alignmentUniformScale => .homogFamilyAlignment
+
+/-- the matrix computed by each implementation of `pseudoinverse` -/
+def pinvHBy {d : Nat} (i : Impl) (H : Mat (d + 1)) : Option (Mat (d + 1)) :=
+  match i with
   | .translation => some (ofAffine Mat.one fun i => - transPart H i)
   | .uniformScale => some (ofAffine (diagM fun _ => 1 / H 0 0) fun _ => 0)
   | .nonUniformScale => some (ofAffine (diagM fun i => 1 / H i.castSucc i.castSucc) fun _ => 0)
   | .rotation => (inv (linPart H)).map fun R => ofAffine R fun _ => 0
-  | _ => inv H
+  | .homogeneous | .homogFamilyAlignment => inv H          -- `_h_matrix_pseudoinverse` = `np.linalg.inv(self.h_matrix)`
+
+/-- the matrix of `pseudoinverse()`, class by class as resolved by the MRO -/
+def pinvH {d : Nat} (c : Cls) (H : Mat (d + 1)) : Option (Mat (d + 1)) := pinvHBy (implOf c) H
 
 /-- `t.pseudoinverse()`: same class, inverse matrix, source and target exchanged -/
 def pinv {d : Nat} {α : Type} (t : HT d α) : Option (HT d α) :=
